@@ -37,12 +37,13 @@ static std::vector<Node> build(const Prog &p, Parameter &w1, Parameter &w2, Devi
   Node W1 = F::parameter<Node>(w1), W2 = F::parameter<Node>(w2);
   Node h = F::matmul(W1, x);                       // [b] x bs
   obs.push_back(h);
-  switch (p.kind % 6) {
+  switch (p.kind % 7) {
     case 0: { Node t = F::tanh(h + 1.0f); obs.push_back(t); Node y = F::matmul(W2, t); obs.push_back(y); obs.push_back(F::softmax(y, 0)); break; }
     case 1: { std::vector<Node> parts = F::split(F::concat({h, h}, 0), 0, 2); obs.push_back(parts[1]); obs.push_back(F::sum(parts[0] * parts[1], 0)); break; }
     case 2: { Node y = F::log_softmax(F::matmul(W2, F::relu(h)), 0); obs.push_back(y); obs.push_back(F::batch::sum(y)); break; }
     case 3: { Node y = F::slice(h, 0, 0, 1) * F::pick(h, {0}, 0); obs.push_back(y); obs.push_back(F::broadcast(y, 1, 3)); break; }
     case 4: { Node y = F::softmax_cross_entropy(F::matmul(W2, h), std::vector<std::uint32_t>(p.bs, 0u), 0); obs.push_back(y); obs.push_back(F::batch::mean(y)); break; }
+    case 6: { std::vector<Node> parts = F::split(F::concat({h, h, h}, 0), 0, 3); obs.push_back(parts[2]); obs.push_back(F::sum(F::tanh(parts[0]), 0)); break; }
     default: { Node y = F::transpose(F::reshape(h, Shape({1, p.b}, p.bs))); obs.push_back(y); obs.push_back(F::flip(y, 0) - y); break; }
   }
   return obs;
@@ -65,8 +66,20 @@ static void alloc_failure_program(const Prog &p) {
     long before = m.total;
     for (Node &n : obs) ref.push_back(n.to_vector());
     nalloc = m.total - before;
+    // C11: backward() releases every intermediate gradient as it goes - after it returns the
+    // number of live buffers is what it was after the forward pass (parameter gradients are
+    // allocated with the parameters), also for multi-output operators with unused outputs
+    const long live_fw = m.live;
+    std::string rb = outcome([&]() { obs.back().backward(); });
+    if (rb != "ok") fail(p.str(), "backward: " + rb);
+    else if (m.live != live_fw) fail(p.str(), "backward left " + std::to_string(m.live - live_fw) + " gradient buffer(s) alive (live " + std::to_string(live_fw) + " -> " + std::to_string(m.live) + ")");
+    else ok(p.str() + " backward releases gradients");
+    // a second pass must behave the same
+    rb = outcome([&]() { obs.back().backward(); });
+    if (rb != "ok" || m.live != live_fw) fail(p.str(), "second backward: " + rb + " live " + std::to_string(m.live));
+    w1.reset_gradient(); w2.reset_gradient();
   }
-  if (m.live != 3 + 0 && m.live < 0) fail(p.str(), "negative live count");
+  if (m.live != 4) fail(p.str(), "after the graph is destroyed " + std::to_string(m.live) + " buffers are alive (expected the 4 parameter buffers)");
   for (long k = 0; k < nalloc; ++k) {
     Graph g; Graph::set_default(g);
     std::vector<Node> obs = build(p, w1, w2, dev);
